@@ -50,6 +50,29 @@ def obligations(tier):
                       encoded=ENC,
                       bounds="one service step (read_message+process_message, as run() performs it) from any Inv state with the sender in each protocol state and 2 other modules (logger, ALL-monitor); receive outcome full/short/reset at header and at payload; names from a 3-element pool",
                       symbolic="every header field over its C range (msg_type, num_data_bytes, remaining_bytes int32; ids int16), control payload integers over their C ranges, module ids, dynamic-id cursor 0..99, unique flags")]
+    obs.append(Obligation("name_arbitrary_bytes", "harness.mgr_step", "c03_name", [{"ctrl": "CONNECT_V2"}, {"ctrl": "CLIENT_SET_NAME"}],
+                          cond_timeout=120, reach="c03_name_reach", encoded=ENC + ["pyrtma.validators:String.__get__", "pyrtma.manager:MessageManager.set_module_name"],
+                          bounds="name: arbitrary non-NUL bytes of length <= 3 (so non-ASCII included), rest of the frame concrete",
+                          symbolic="name bytes"))
+    obs.append(Obligation("all_dynamic_ids_in_use", "harness.mgr_step", "c03_dyn", [{"off": o} for o in ((0, 57, 99) if tier == "quick" else (0, 1, 42, 57, 98, 99))],
+                          cond_timeout=200, path_timeout=60, reach="c03_dyn_reach", encoded=ENC,
+                          bounds="100 live modules on the dynamic ids; the free id (none, or any one of 100..199) symbolic; cursor at selected offsets",
+                          symbolic="which dynamic id is free (or none)"))
+    P = "harness.mgr_periodic"
+    PENC = ["pyrtma.manager:MessageManager.send_timing_message", "pyrtma.manager:MessageManager.send_traffic",
+            "pyrtma.manager:MessageManager.send_active_clients", "pyrtma.manager:MessageManager.sending_traffic_ctx",
+            "pyrtma.manager:MessageManager.forward_message", "pyrtma.manager:MessageManager.send_message"]
+    obs.append(Obligation("timing_message_any_types", P, "h_timing", [{"K": k} for k in ((0, 1, 2) if tier == "quick" else (0, 1, 2, 3))],
+                          cond_timeout=300, path_timeout=60, reach="h_timing_reach", reach_shards=[{"K": 1}], encoded=PENC,
+                          bounds="<= 2 (quick) / 3 (thorough) distinct message types counted in the interval",
+                          symbolic="type ids over all of int32, counts 1..65535, a module id and pid, probe index 0..9999"))
+    obs.append(Obligation("traffic_never_raises", P, "h_traffic", [{"K": k} for k in (0, 1, 64, 65)], cond_timeout=200, path_timeout=60,
+                          reach="h_traffic_reach", reach_shards=[{"K": 1}], encoded=PENC, bounds="K distinct types per interval: 0, 1, 64, 65",
+                          symbolic="two type ids (int32) and their counts, seqno"))
+    obs.append(Obligation("active_clients_table_size", P, "h_active", [{"N": n} for n in ((0, 1, 254, 255, 300) if tier == "quick" else (0, 1, 2, 253, 254, 255, 256, 300, 600))],
+                          cond_timeout=200, path_timeout=60, reach="h_active_reach", reach_shards=[{"N": 1}], encoded=PENC,
+                          bounds="module table of N+2 entries (N up to 600); send_client_info stubbed here (covered by the step obligation)",
+                          symbolic="a module id and pid in the table"))
     return obs
 
 
